@@ -1,5 +1,6 @@
 (* C11 — store failures are reported, never turned into silent loss or logout.
-   Statements only; proofs are in Proofs/CrashFault7..11.v.
+   Statements only; proofs are in Proofs/CrashFault7..11.v and, for
+   GetAndDelete, Proofs/CrashFault15.v.
 
    Every theorem quantifies over ALL fault plans: `plan s` (which of the coming
    persistence calls fail) is arbitrary, so single faults, double faults and
@@ -12,7 +13,7 @@
    Kd s`: cv s, and every cached or stored non-reference record has a data map. *)
 From Sessions Require Import Model.Base Model.Sess Model.Hist Proofs.SessDefs
   Proofs.CrashFault Proofs.CrashFault2 Proofs.CrashFault7 Proofs.CrashFault8 Proofs.CrashFault9
-  Proofs.CrashFault10 Proofs.CrashFault11 Proofs.CrashFault13 Proofs.CrashFault14.
+  Proofs.CrashFault10 Proofs.CrashFault11 Proofs.CrashFault13 Proofs.CrashFault14 Proofs.CrashFault15.
 
 (* ---- C11_load ---- *)
 
@@ -100,6 +101,53 @@ Theorem C11_ack_start :
                  durable r = durable (codec (conf s') (o_rec ob)).
 Proof. exact ack_start. Qed.
 
+(* ---- GetAndDelete: the failure of its save is NOT reported (finding D6b) ----
+
+   Since the repair of D6, Session.GetAndDelete makes one direct save when it
+   finds the key; it has no error result and returns the value whether or not
+   that save succeeded. The acknowledgement property in the form of C11_ack_set
+   / C11_ack_del is therefore false for it under fault plans. *)
+
+Definition C11_ack_getdel_statement : Prop :=
+  forall s o hc k v s' cks,
+    do_sop s o hc (SGetDel k) = (s', SVal (Some v), cks) -> written s' o.
+
+(* A reachable state (a session with key 1 := 2, written through) and the fault
+   plan that fails the next persistence call: GetAndDelete returns the value,
+   its save failed, the key is gone in memory and still in the stored record. *)
+Theorem C11_getdel_unreported_refuted :
+  exists s o hc k v s' ob r d,
+    written s o /\ plan s = [true] /\
+    do_sop s o hc (SGetDel k) = (s', SVal (Some v), []) /\
+    hd_error (evs s') = Some (EvSave (o_id ob) (codec (conf s) (o_rec ob)) false) /\
+    hget s' o = Some ob /\ r_data (o_rec ob) = Some [] /\
+    lookup (store s') (o_id ob) = Some r /\ r_data r = Some d /\ kv_get d k = Some v /\
+    ~ written s' o.
+Proof. exact getdel_unreported. Qed.
+
+Theorem C11_ack_getdel_refuted : ~ C11_ack_getdel_statement.
+Proof. exact ack_getdel_refuted. Qed.
+
+(* what a client sees: Set 1:=2; GetAndDelete 1 with its save failing (value
+   returned, no error in the step); cache loss; Get 1: the value is back *)
+Theorem C11_getdel_fault_value_returns :
+  map ob_script (run cfgF histF) = [[SOk]; [SVal (Some 2%N)]; []; [SVal (Some 2%N)]] /\
+  map ob_res (run cfgF histF) = [RSess; RSess; RVoid; RSess] /\
+  map (fun o => filter (fun e => match e with EvSave _ _ false => true | _ => false end) (ob_evs o)) (run cfgF histF)
+  = [[]; [EvSave (KGen 0) (mkRec 0 0 (V4 10 0 0 1 80) 7 None None (Some [])) false]; []; []].
+Proof. exact getdel_fault_value_returns. Qed.
+
+(* What does hold for every fault plan: the key is deleted in memory, and the
+   session is written through unless that one save failed (then the store is
+   unchanged and the failed save is the call's only event). *)
+Theorem C11_ack_getdel_partial :
+  forall s o hc k v s' cks,
+    do_sop s o hc (SGetDel k) = (s', SVal (Some v), cks) ->
+    (exists d, data_of s o = Some d /\ kv_get d k = Some v /\ data_of s' o = Some (kv_del d k)) /\
+    (written s' o \/
+     exists ob r, hget s o = Some ob /\ evs s' = EvSave (o_id ob) r false :: evs s /\ store s' = store s).
+Proof. exact ack_getdel_partial. Qed.
+
 (* ---- C11_nopanic ---- *)
 
 Theorem C11_nopanic_start :
@@ -154,6 +202,10 @@ Print Assumptions C11_ack_regen.
 Print Assumptions C11_ack_login.
 Print Assumptions C11_ack_create.
 Print Assumptions C11_ack_start.
+Print Assumptions C11_getdel_unreported_refuted.
+Print Assumptions C11_ack_getdel_refuted.
+Print Assumptions C11_getdel_fault_value_returns.
+Print Assumptions C11_ack_getdel_partial.
 Print Assumptions C11_nopanic_start.
 Print Assumptions C11_nopanic_sop.
 Print Assumptions C11_nopanic_request.
